@@ -127,8 +127,32 @@ def in_scope(n: Dict[str, Any]) -> bool:
     return True
 
 
+_rec = None
+
+
+def recorder() -> P.Recorder:
+    global _rec
+    if _rec is None:
+        _rec = P.Recorder()
+        P.attach_l0(_rec)
+    return _rec
+
+
+_core = {"on": False}
+
+
+def audit_suffix() -> str:
+    a = M.lp_audit(recorder().events())
+    s = (":" + a) if a else ""
+    if _core["on"]:
+        s += ":regression-core"   # regressions on the seed-independent core never match an open known finding
+    return s
+
+
 def run_case(ctx: Ctx, case: Dict[str, Any]) -> None:  # noqa: C901
     n = case["contract"]
+    recorder().reset()
+    _core["on"] = case.get("kind") == "core"
     if not in_scope(n):
         ctx.count("out-of-scope:magnitude-outside-[1e-4,1e6]")
         ctx.case_done(case, False)
@@ -163,6 +187,7 @@ def run_case(ctx: Ctx, case: Dict[str, Any]) -> None:  # noqa: C901
         # ---- (2) machine file through the file reader: same interface and meaning
         fn = os.path.join(tmp, "m.json")
         try:
+            recorder().reset()
             P.fileio_mod.write_contracts_to_file([c], ["c"], fn, machine_representation=True)
             cs, names = P.fileio_mod.read_contracts_from_file(fn)
             sm = X.snap_contract(cs[0])
@@ -174,15 +199,15 @@ def run_case(ctx: Ctx, case: Dict[str, Any]) -> None:  # noqa: C901
             if st == "unknown":
                 ctx.inconclusive_case()
             elif st == "diff":
-                ctx.violation("machine-file-meaning:" + where.split(":")[0], "machine file round trip of %s gave %s" % (
-                    s0, sm), case, w)
+                ctx.violation("machine-file-meaning:" + where.split(":")[0] + audit_suffix(),
+                              "machine file round trip of %s gave %s" % (s0, sm), case, w)
         except ValueError:
             ctx.count("machine-file:reader-refused(ValueError)")
             # judged only when the contract has a behaviour (with margin) inside the box of the numerical reading
             if X.check(X.box(X.names_of(s0)), X.conj([{"c": t["c"], "k": t["k"] - 1e-3 * (1 + abs(t["k"]))}
                                                      for t in s0["a"] + s0["g"]]))[0] == "sat":
-                ctx.violation("machine-file-refused-satisfiable", "file reader refused the machine file of the "
-                              "satisfiable contract %s" % s0, case)
+                ctx.violation("machine-file-refused-satisfiable" + audit_suffix(), "file reader refused the machine "
+                              "file of the satisfiable contract %s" % s0, case)
         except Exception as e:  # noqa: BLE001
             ctx.violation("machine-file-raised:%s" % type(e).__name__, "machine file round trip of %s raised %r" % (
                 s0, e), case)
@@ -222,6 +247,7 @@ def run_case(ctx: Ctx, case: Dict[str, Any]) -> None:  # noqa: C901
             # ---- (4) human file through the file reader (re-simplifies): tolerance reading
             fn2 = os.path.join(tmp, "h.json")
             try:
+                recorder().reset()
                 P.fileio_mod.write_contracts_to_file([c], ["c"], fn2, machine_representation=False)
                 cs, names = P.fileio_mod.read_contracts_from_file(fn2)
                 sf = X.snap_contract(cs[0])
@@ -233,8 +259,8 @@ def run_case(ctx: Ctx, case: Dict[str, Any]) -> None:  # noqa: C901
                 if st == "unknown":
                     ctx.inconclusive_case()
                 elif st == "diff":
-                    ctx.violation("human-file-meaning:" + where.split(":")[0], "human file round trip of %s gave %s"
-                                  % (s0, sf), case, w)
+                    ctx.violation("human-file-meaning:" + where.split(":")[0] + audit_suffix(),
+                                  "human file round trip of %s gave %s" % (s0, sf), case, w)
             except ValueError as e:
                 if isinstance(e, (P.IncompatibleArgsError,)):
                     ctx.violation("human-file-raised:IncompatibleArgsError", "human file round trip of %s raised %r"
